@@ -873,6 +873,19 @@ def _add_producers():
         except Exception:
             return False
         self.pool.sweep(which + '+array_write', args=[src.sid])
+        if which == 'get_matrices' and src.alive:
+            # ... nor what the source hands out next: its square form is still that of its own vectors
+            try:
+                again = np.asarray(src.obj.get_matrices())
+                vec = np.asarray(src.obj.dissimilarities, dtype=float)
+                exp = np.array([square_from_vector(v, src.obj.n_cond) for v in vec]).reshape(again.shape)
+                if not np.array_equal(again, exp, equal_nan=True):
+                    self.pool.report('C12', 'bystander', 'bystander:square-form-after-array_write:source',
+                                     'after an array write on the matrices returned by get_matrices(), the source returns a '
+                                     'square form that is no longer that of its own dissimilarity vectors')
+                self.ctx.probe('square_form_reread')
+            except Exception as e:
+                self.pool.report('C12', 'bystander', f'bystander:square-form-after-array_write:raises:{type(e).__name__}', repr(e))
         self.ctx.behaviour(which + '_write', src.op)
     RdmsOps.op_get_vectors_write = op_get_vectors_write
 
